@@ -33,11 +33,16 @@ func (rc *arrayCodec) Read(r *ReadBuf, p unsafe.Pointer) error {
 			}
 		}
 
-		// If our array is nil or undersized then we can fix it up here.
-		*sh = rc.resizeSlice(*sh, int(count))
+		// If our array is nil or undersized then we can fix it up here. The
+		// count comes from the input: reserve no more than the remaining input
+		// could possibly hold, and grow below if the items really are there.
+		*sh = rc.resizeSlice(*sh, int(min(count, int64(r.Len())+1)))
 
 		itemSize := rc.itemType.Size()
 		for i := int64(0); i < count; i++ {
+			if sh.Len == sh.Cap {
+				*sh = rc.resizeSlice(*sh, max(sh.Len, 1))
+			}
 			cursor := unsafe.Pointer(uintptr(sh.Data) + uintptr(sh.Len)*itemSize)
 			if err := rc.itemCodec.Read(r, cursor); err != nil {
 				return fmt.Errorf("failed to decode array entry %d. %w", i, err)
